@@ -99,6 +99,9 @@ func (msg *PackedForwardMessage) DecodeMsg(dc *msgp.Reader) error {
 		return msgp.ArrayError{Wanted: 3, Got: sz}
 	}
 
+	// options of an earlier message must not survive into this one
+	msg.Options = nil
+
 	if msg.Tag, err = dc.ReadString(); err != nil {
 		return msgp.WrapError(err, "Tag")
 	}
@@ -135,6 +138,9 @@ func (msg *PackedForwardMessage) UnmarshalMsg(bits []byte) ([]byte, error) {
 	if sz != 2 && sz != 3 {
 		return bits, msgp.ArrayError{Wanted: 3, Got: sz}
 	}
+
+	// options of an earlier message must not survive into this one
+	msg.Options = nil
 
 	if msg.Tag, bits, err = msgp.ReadStringBytes(bits); err != nil {
 		return bits, msgp.WrapError(err, "Tag")
